@@ -205,6 +205,15 @@ def all2 (r : FX → FX → Bool) : List FX → List FX → Bool
   | a :: as, b :: bs => r a b && all2 r as bs
   | _, _ => false
 
+/-- the advertised default tolerances are `f64::EPSILON` (what `approx` uses for `f64` itself) -/
+def defaultsOk (deps dmr : Option String) : Option String :=
+  let bad (s : Option String) : Bool := match s with
+    | none => false
+    | some h => (F64.ofHex? h) != some F64.epsilon
+  if bad deps then some "default_epsilon() is not f64::EPSILON"
+  else if bad dmr then some "default_max_relative() is not f64::EPSILON"
+  else none
+
 def approxAbs (p q : List FX) (eps : FX) (impl : Out) : Option String :=
   match impl with
   | .bool b => if b == all2 (fun a b => absR a b eps) p q then none else some "abs_diff_eq is not the conjunction over corresponding numbers"
